@@ -4,7 +4,7 @@ FIX_COMMITS = ["91becbd", "952c8ec"]
 PENDING = "contracts for this property are not completed in /verif yet (see DESIGN.md section 7 for the plan); not claimed until its check runs end to end"
 NA = {
     
-     "C11": PENDING, "C12": PENDING, 
+      
     
     "C18": "quantifies over thread schedules and interleavings: Kani has no thread support and Verus would need its permission types threaded through once_cell/Arc (external crates); no contract within reach can express it (DESIGN.md section 7, C18)",
     "C20": "about the contents of heap memory at the moment it is freed: neither Verus's memory model nor Kani's contracts can mention a buffer after its owner is dropped (DESIGN.md section 7, C20)",
